@@ -8,6 +8,7 @@ import (
 	"os/exec"
 	"strings"
 	"sync"
+	"time"
 
 	"github.com/kjk/lzma"
 	"github.com/klauspost/compress/zstd"
@@ -35,20 +36,39 @@ type DebModel struct {
 	// xz -7 / -9 declare) - the stream header states the dictionary size whatever the payload
 	XZOpt        string     `json:"xzOpt,omitempty"`
 	DebianBinary string     `json:"debianBinary"`
-	Extra        []ArMember `json:"extra,omitempty"`    // additional members
-	ExtraPos     int        `json:"extraPos,omitempty"` // 0: after data, 1: between control and data
-	Slash        bool       `json:"slash,omitempty"`    // GNU '/' terminated member names
-	Omit         string     `json:"omit,omitempty"`     // member left out: "", "debian-binary", "control", "data"
-	GzSplit      int        `json:"gzSplit,omitempty"`  // > 1: gzip members are written as that many concatenated gzip streams (RFC 1952 allows it)
+	Extra        []ArMember `json:"extra,omitempty"`      // additional members
+	ExtraPos     int        `json:"extraPos,omitempty"`   // 0: after data, 1: between control and data
+	Slash        bool       `json:"slash,omitempty"`      // GNU '/' terminated member names
+	Omit         string     `json:"omit,omitempty"`       // member left out: "", "debian-binary", "control", "data"
+	GzSplit      int        `json:"gzSplit,omitempty"`    // > 1: gzip members are written as that many concatenated gzip streams (RFC 1952 allows it)
+	TarDialect   string     `json:"tarDialect,omitempty"` // "" GNU, "ustar", "pax" (see buildTarFmt)
 }
 
 var codecs = []string{"", "gz", "xz", "bz2", "lzma", "zst"}
 
-func buildTar(files []TarFile) ([]byte, error) {
+func buildTar(files []TarFile) ([]byte, error) { return buildTarFmt(files, "") }
+
+// buildTarFmt writes the entries in the GNU dialect ("", what dpkg-deb writes), as plain ustar, or
+// as pax ("pax": every entry behind an extended header of its own - sub-second mtime, atime, a
+// non-ASCII owner name - as `tar --format=posix` and Python's tarfile write them).
+func buildTarFmt(files []TarFile, dialect string) ([]byte, error) {
 	var buf bytes.Buffer
 	tw := tar.NewWriter(&buf)
-	for _, f := range files {
+	for i, f := range files {
 		h := &tar.Header{Name: f.Name, Mode: 0o644, Uname: "root", Gname: "root", Format: tar.FormatGNU}
+		switch dialect {
+		case "ustar":
+			h.Format = tar.FormatUSTAR
+		case "pax":
+			h.Format = tar.FormatPAX
+			h.ModTime = time.Unix(1700000000+int64(i), 123456789)
+			if i%2 == 0 {
+				h.AccessTime = time.Unix(1700000100, 5)
+			}
+			if i%3 == 0 {
+				h.Uname = "r\u00f6\u00f6t"
+			}
+		}
 		switch f.Type {
 		case "dir":
 			h.Typeflag, h.Mode = tar.TypeDir, 0o755
@@ -169,11 +189,11 @@ func tarMemberName(base, codec string) string {
 func buildDeb(m DebModel) ([]byte, []ArMember, error) {
 	ctlFiles := make([]TarFile, len(m.CtlFiles))
 	copy(ctlFiles, m.CtlFiles)
-	ctar, err := buildTar(ctlFiles)
+	ctar, err := buildTarFmt(ctlFiles, m.TarDialect)
 	if err != nil {
 		return nil, nil, err
 	}
-	dtar, err := buildTar(m.DataFiles)
+	dtar, err := buildTarFmt(m.DataFiles, m.TarDialect)
 	if err != nil {
 		return nil, nil, err
 	}
@@ -347,6 +367,7 @@ func genDebModel(t *rapid.T) DebModel {
 	if rapid.IntRange(0, 3).Draw(t, "gzsplit") == 0 {
 		m.GzSplit = rapid.IntRange(2, 4).Draw(t, "gzsplitN")
 	}
+	m.TarDialect = rapid.SampledFrom([]string{"", "", "", "ustar", "pax"}).Draw(t, "tarDialect")
 	ne := rapid.SampledFrom([]int{0, 0, 1, 2}).Draw(t, "nextra")
 	for i := 0; i < ne; i++ {
 		name := rapid.SampledFrom([]string{"_gpgorigin", "_gpgbuilder", "_x", "_meta.json", "_" + genFromAlphabet(t, "en", "abc019", 1, 8)}).Draw(t, "ename")
